@@ -674,6 +674,62 @@ class Inliner:
         return bool(D.get('inlined'))
 
 
+def relocate_moved(P, known):
+    """a free function that was moved to another module of the same crate keeps its old name for the rules: an unknown
+    `fn leaf` with exactly one known-but-absent function of the same leaf name (and no sibling candidate) is that function"""
+    present = {}
+    for path, bs in P.bodies.items():
+        for b in bs:
+            if not b.is_promoted and b.crate in CRATES and b.kind in ('Fn', 'AssocFn'):
+                present[path] = b
+    unknown_free = [p for p, b in present.items() if p not in known and b.kind == 'Fn' and '<' not in p]
+    missing = [k for k in known if k not in present and '<' not in k]
+    alias = {}
+    for u in unknown_free:
+        leaf = u.rsplit('::', 1)[-1]
+        cands = [k for k in missing if k.rsplit('::', 1)[-1] == leaf and k.split('::')[0] == u.split('::')[0]]
+        sib = [x for x in unknown_free if x.rsplit('::', 1)[-1] == leaf]
+        if len(cands) == 1 and len(sib) == 1:
+            alias[u] = cands[0]
+    if not alias:
+        return alias
+
+    def ren(raw):
+        n = norm(raw)
+        for u, k in alias.items():
+            if n == u:
+                return k
+            if n.startswith(u + '::{'):
+                return k + n[len(u):]
+        return raw
+
+    def walk(x):
+        if isinstance(x, dict):
+            for key in ('callee', 'resolved', 'fn', 'closure', 'coroutine'):
+                if key in x and isinstance(x[key], str):
+                    x[key] = ren(x[key])
+            for v in x.values():
+                walk(v)
+        elif isinstance(x, list):
+            for v in x:
+                walk(v)
+    newbodies = {}
+    for path, bs in P.bodies.items():
+        for b in bs:
+            if b.crate in CRATES:
+                walk(b.d['blocks'])
+                b.d['path'] = ren(b.d['path'])
+                if b.d.get('parent'):
+                    b.d['parent'] = ren(b.d['parent'])
+                nb = Body(b.d, b.crate)
+                nb.prog = P
+            else:
+                nb = b
+            newbodies.setdefault(nb.path, []).append(nb)
+    P.bodies = newbodies
+    return alias
+
+
 def apply(P, known=None):
     """rewrite P in place: every known body gets unknown helpers inlined; helpers that were inlined everywhere are
     removed from the program.  Returns the inliner (log of what was done)."""
@@ -683,6 +739,7 @@ def apply(P, known=None):
     P.inline_log = inl
     if known is None:
         return inl
+    inl.moved = relocate_moved(P, known)
     # roots: every body that is not itself (part of) an unknown helper
     todo = []
     for path, bs in list(P.bodies.items()):
